@@ -287,7 +287,7 @@ impl<S: ShortGroupSignatureScheme> Presentation<S> {
                 // If the claim is not disclosed and used in a statement,
                 // it must use a shared blinder, otherwise its proof specific
                 if let Statements::Signature(ss) = sig {
-                    let claim_label = ss.issuer.schema.claim_indices.get_index(index).unwrap();
+                    let claim_label = ss.issuer.schema.claim_indices.get_index(index).ok_or_else(|| Error::InvalidPresentationData(format!("signature statement with id '{}' has no label for claim '{}'", id, index)))?;
                     if ss.disclosed.contains(claim_label) {
                         proof_claims.push((claim.clone(), ProofMessage::Revealed(claim_value)));
                     } else if shared_proof_msg_indices[id][index] {
